@@ -217,8 +217,10 @@ def run(check):
         r_l.violate('datapoint altered before buffering', mi, call, 'the datapoint passed to the interval buffer is `%s`'
                     % unparse(call.args[0] if call.args else call))
     # alignment of the interval key
+    keynames = {x.slice.id for x in ast.walk(mi.node) if isinstance(x, ast.Subscript) and isinstance(x.slice, ast.Name) and
+                dotted(x.value) == 'self.interval_buffers'}
     ivs = [n for n in g.nodes if n.kind == 'stmt' and isinstance(n.ast, ast.Assign) and any(
-      isinstance(t, ast.Name) and t.id == 'interval' for t in n.ast.targets)]
+      isinstance(t, ast.Name) and t.id in keynames for t in n.ast.targets)]
     al_ok = False
     for n in ivs:
       t = unparse(n.ast.value).replace(' ', '')
@@ -444,8 +446,12 @@ def run(check):
     check.analysed(br)
     consts = [n for n in walk_no_nested(br.node, include_self=False) if isinstance(n, ast.Constant) and isinstance(n.value, str)]
     frags = []
+    part_vars = {c.args[0].id for c in walk_no_nested(br.node, include_self=False) if isinstance(c, ast.Call) and
+                 isinstance(c.func, ast.Attribute) and c.func.attr == 'append' and c.args and isinstance(c.args[0], ast.Name)}
+    list_vars = {dotted(c.func.value) for c in walk_no_nested(br.node, include_self=False) if isinstance(c, ast.Call) and
+                 isinstance(c.func, ast.Attribute) and c.func.attr == 'append' and c.args and isinstance(c.args[0], ast.Name)}
     for n in walk_no_nested(br.node, include_self=False):
-      if isinstance(n, ast.Assign) and any(isinstance(t, ast.Name) and t.id == 'regex_part' for t in n.targets):
+      if isinstance(n, ast.Assign) and any(isinstance(t, ast.Name) and t.id in part_vars for t in n.targets):
         frags.append(n)
     for a in frags:
       v = a.value
@@ -478,7 +484,7 @@ def run(check):
         r_x.violate('fragment can cross a segment boundary', br, a, 'the regex fragment %r used for %s %s: a <field> or * would match '
                     'across dots' % (tpl, 'a pattern part' if not ctx else '`%s`' % ctx, why))
     txt = unparse(br.node).replace(' ', '')
-    if "'\\\\.'.join(regex_pattern_parts)+'$'" in txt or "'\\\\.'.join(regex_pattern_parts)+'\\\\Z'" in txt:
+    if any(("'\\\\.'.join(%s)+'$'" % lv) in txt or ("'\\\\.'.join(%s)+'\\\\Z'" % lv) in txt for lv in list_vars if lv):
       r_x.ok('parts joined by an escaped dot, pattern end-anchored', br.loc())
     else:
       r_x.violate('pattern not anchored / joined by literal dots', br, None, 'the rule regex is not "\\\\.".join(parts) + "$": it can match '
